@@ -69,7 +69,7 @@ def run_tlc(module, cfg_path, workers=8, timeout=600, simulate=None, depth=None,
        ok (no violation), violated (name or None), kind, states, distinct, depth, coverage{action:(taken,gen)},
        trace (list of dict var->text) when violated, out (raw)."""
     meta = scratch("tlc")
-    jopts = ["-Xmx" + heap, "-XX:+UseParallelGC"]
+    jopts = ["-Xmx" + heap, "-XX:+UseParallelGC", "-Xss128m"]
     if dfs:
         jopts.append("-Dtlc2.tool.queue.IStateQueue=StateDeque")
     cmd = ["timeout", str(timeout), "java"] + jopts + ["-cp", JAR, "tlc2.TLC", "-workers", str(workers),
@@ -155,6 +155,11 @@ def parse_trace(out):
         if m:
             flush()
             cur = {"_action": m.group(2)}
+            states.append(cur)
+            continue
+        if "violated by the initial state" in line:
+            flush()
+            cur = {"_action": "Initial predicate"}
             states.append(cur)
             continue
         if re.match(r"State \d+: Stuttering", line) or line.startswith("Back to state"):
